@@ -149,11 +149,16 @@ Section Fail.
     2 + 42 + length (e_data p) +
     match e_attr p with Some a => 1 + 3 + length (attr_bytes a) | None => 0 end.
 
+  (** the guard at the end of [process_failure_packet]: attribution data stays unless the
+      [update_fail_htlc] would exceed the message size limit *)
+  Definition keeps_attribution (p : err_packet) : bool :=
+    negb (LN_MAX_MSG_LEN <? Z.of_nat (update_fail_htlc_wire_len p))%Z.
+
   (** [process_failure_packet] *)
   Definition process_failure_packet (p : err_packet) (k : fkeys) (hold_time : Z) : err_packet :=
     let p1 := mk_err (e_data p) (option_map shift_right (e_attr p)) in
     let p2 := update_attribution_data p1 k hold_time in
-    if (LN_MAX_MSG_LEN <? Z.of_nat (update_fail_htlc_wire_len p2))%Z then mk_err (e_data p2) None else p2.
+    if keeps_attribution p2 then p2 else mk_err (e_data p2) None.
 
   (** What an intermediate hop does with a failure received from downstream
       ([get_encrypted_failure_packet] on [LightningError]). *)
